@@ -472,11 +472,16 @@ func runNodeIn(c *Ctx, dir string, cases []jsCase, tag string, mode ...string) (
 	op := filepath.Join(scratch, "c20-out-"+tag+".json")
 	b, _ := json.Marshal(cases)
 	os.WriteFile(cp, b, 0o644)
-	// a watchdog, not a verdict: when it fires, the CPU time node has used tells a hang (spinning) from a stall
+	// a watchdog, not a verdict: the driver rewrites <out>.progress with the number of cases done every 200 cases; the
+	// watchdog fires when that number has stood still for `limit` (never because the whole run is long - the case list
+	// grows with the tier), and the CPU time node used DURING the stall tells a hang (spinning) from a stalled machine.
+	// A run that keeps progressing is only cut off after 45 minutes, which is inconclusive.
 	limit := 10 * time.Minute
 	if len(mode) > 0 {
 		limit = 90 * time.Second
 	}
+	prog := op + ".progress"
+	os.Remove(prog)
 	cmd := exec.Command("node", append([]string{drv, dir, cp, op}, mode...)...)
 	var outBuf bytes.Buffer
 	cmd.Stdout, cmd.Stderr = &outBuf, &outBuf
@@ -484,16 +489,37 @@ func runNodeIn(c *Ctx, dir string, cases []jsCase, tag string, mode ...string) (
 	if err == nil {
 		waited := make(chan error, 1)
 		go func() { waited <- cmd.Wait() }()
-		select {
-		case err = <-waited:
-		case <-time.After(limit):
-			cpu := procCPUSeconds(cmd.Process.Pid)
-			cmd.Process.Kill()
-			<-waited
-			os.Remove(op)
-			return nil, clipS(outBuf.String()), &nodeHang{limit: limit, cpuSeconds: cpu}
+		started := time.Now()
+		lastChange, lastVal, cpuAtChange := time.Now(), "", procCPUSeconds(cmd.Process.Pid)
+		tick := time.NewTicker(2 * time.Second)
+	wait:
+		for {
+			select {
+			case err = <-waited:
+				tick.Stop()
+				break wait
+			case <-tick.C:
+				if b, rerr := os.ReadFile(prog); rerr == nil && string(b) != lastVal {
+					lastVal, lastChange, cpuAtChange = string(b), time.Now(), procCPUSeconds(cmd.Process.Pid)
+				}
+				stalled := time.Since(lastChange) > limit
+				if !stalled && time.Since(started) < 45*time.Minute {
+					continue
+				}
+				cpu := procCPUSeconds(cmd.Process.Pid) - cpuAtChange
+				cmd.Process.Kill()
+				<-waited
+				tick.Stop()
+				os.Remove(op)
+				os.Remove(prog)
+				if !stalled {
+					return nil, clipS(outBuf.String()), fmt.Errorf("node still progressing after 45 minutes (cases done: %s); cut off", lastVal)
+				}
+				return nil, clipS(outBuf.String()), &nodeHang{limit: limit, cpuSeconds: cpu, done: lastVal}
+			}
 		}
 	}
+	os.Remove(prog)
 	outB := outBuf.Bytes()
 	tail := string(outB)
 	if len(tail) > 2000 {
@@ -514,10 +540,11 @@ func runNodeIn(c *Ctx, dir string, cases []jsCase, tag string, mode ...string) (
 type nodeHang struct {
 	limit      time.Duration
 	cpuSeconds float64
+	done       string // the driver's last heartbeat (cases done)
 }
 
 func (h *nodeHang) Error() string {
-	return fmt.Sprintf("node did not finish within %v (CPU time used: %.0f s)", h.limit, h.cpuSeconds)
+	return fmt.Sprintf("node made no progress for %v (cases done: %s; CPU time used meanwhile: %.0f s)", h.limit, h.done, h.cpuSeconds)
 }
 
 func procCPUSeconds(pid int) float64 {
